@@ -30,6 +30,8 @@ type CheckDef struct {
 	Direct func(tier string, deadline time.Time) *DirectResult
 	// Post runs after the searches and contributes coverage entries (e.g. validation of a simulated environment).
 	Post func(tier string) (map[string]any, []string)
+	// Side runs a supplementary detector that can only add reports (never part of the coverage claim).
+	Side func(tier string) (map[string]any, []Violation, []string)
 	// BFS lists explicit-state searches over operation sequences (E2).
 	BFS                           func(tier string) []*BFSDef
 	QuickSeconds, ThoroughSeconds int
@@ -78,12 +80,24 @@ func runJob(j Job) JobResult {
 		return res
 	}
 	var deadline func() bool
-	if j.DeadlineUnix > 0 {
-		deadline = func() bool { return time.Now().Unix() >= j.DeadlineUnix }
+	dl := j.DeadlineUnix
+	if j.MaxSeconds > 0 {
+		if own := time.Now().Unix() + int64(j.MaxSeconds); dl == 0 || own < dl {
+			dl = own
+		}
+	}
+	if dl > 0 {
+		deadline = func() bool { return time.Now().Unix() >= dl }
 	}
 	var keyFn func(*vsched.Sched, *X) string
-	if j.Prune && j.Bound < 0 {
-		keyFn = func(s *vsched.Sched, x *X) string { return s.Key(x.StateKey()) }
+	if j.Prune {
+		keyFn = func(s *vsched.Sched, x *X) string {
+			k := x.StateKey()
+			if k == "" {
+				return ""
+			}
+			return s.Key(k)
+		}
 	}
 	st, viols, eerr := Explore(sc, j.Bound, j.Budget, j.StopFirst, deadline, keyFn)
 	res.Stats = st
@@ -376,9 +390,11 @@ func CheckMain(args []string) int {
 				k := int((r >> 33) % uint64(i+1))
 				jobs[i], jobs[k] = jobs[k], jobs[i]
 			}
-			for i := range jobs {
-				jobs[i].ID = i
-			}
+		}
+		// the open-ended deepening passes come after everything that has to finish
+		sort.SliceStable(jobs, func(a, b int) bool { return !jobs[a].Deepening && jobs[b].Deepening })
+		for i := range jobs {
+			jobs[i].ID = i
 		}
 		results, err := runJobs(jobs, runtime.NumCPU())
 		if err != "" {
@@ -389,9 +405,34 @@ func CheckMain(args []string) int {
 		outcomes := map[string]bool{}
 		boundDone := 1 << 30
 		single := 0
+		deep := map[string]int{"scenarios": 0, "all_interleavings_covered": 0, "executions": 0, "pruned_executions": 0, "lowest_preemption_bound_completed": 1 << 30, "highest_preemption_bound_completed": -1}
 		for _, r := range results {
 			if r.EngineErr != "" {
 				engineErrs = append(engineErrs, r.EngineErr)
+				continue
+			}
+			if r.Job.Deepening {
+				// reported on its own: how far beyond the bounded pass each scenario got
+				deep["scenarios"]++
+				deep["executions"] += r.Stats.Executions
+				deep["pruned_executions"] += r.Stats.Pruned
+				if r.Stats.Exhaustive {
+					deep["all_interleavings_covered"]++
+				} else {
+					if r.Stats.BoundDone < deep["lowest_preemption_bound_completed"] {
+						deep["lowest_preemption_bound_completed"] = r.Stats.BoundDone
+					}
+					if r.Stats.BoundDone > deep["highest_preemption_bound_completed"] {
+						deep["highest_preemption_bound_completed"] = r.Stats.BoundDone
+					}
+				}
+				execs += r.Stats.Executions
+				steps += r.Stats.Steps
+				points += r.Stats.ChoicePoints
+				if r.Stats.MaxPreempt > maxPre {
+					maxPre = r.Stats.MaxPreempt
+				}
+				viols = append(viols, r.Violations...)
 				continue
 			}
 			execs += r.Stats.Executions
@@ -441,10 +482,18 @@ func CheckMain(args []string) int {
 		cov["max_preemptions_in_an_execution"] = maxPre
 		cov["distinct_outcomes"] = len(outcomes)
 		cov["scenarios_with_single_outcome"] = single
+		if deep["scenarios"] > 0 {
+			if deep["all_interleavings_covered"] == deep["scenarios"] {
+				delete(deep, "lowest_preemption_bound_completed")
+				delete(deep, "highest_preemption_bound_completed")
+			}
+			cov["deepening_pass_without_preemption_bound"] = deep
+		}
 	}
 	if def.BFS != nil {
 		var per []any
 		for _, bd := range def.BFS(tier) {
+			bd.Prop = def.Prop
 			bs := RunBFS(bd, deadline)
 			engineErrs = append(engineErrs, bs.EngineErrs...)
 			states, transitions, traces = states+bs.States, transitions+bs.Steps, traces+bs.Transitions
@@ -470,6 +519,14 @@ func CheckMain(args []string) int {
 		if n, ok := m["scripts_replayed_agreeing_with_recorded_bsd_expectation"].(int); ok {
 			traces += n
 		}
+	}
+	if def.Side != nil {
+		m, vs, errs := def.Side(tier)
+		engineErrs = append(engineErrs, errs...)
+		for k, v := range m {
+			cov[k] = v
+		}
+		viols = append(viols, vs...)
 	}
 	cov["states"], cov["transitions"], cov["traces_validated_against_impl"], cov["samples"] = states, transitions, traces, samples
 	cov["exhaustive"] = exhaustive
